@@ -1,2 +1,6 @@
-import Adsg.Proofs.Closure
-#print axioms Adsg.mem_closure_iff_reach
+import Adsg.Props.C05
+#print axioms Adsg.C05.retry_first_feasible
+#print axioms Adsg.C05.decode_independent_of_mask
+#print axioms Adsg.C05.proc_pure
+#print axioms Adsg.C05.proc_pure_from
+#print axioms Adsg.C05.inplace_mask_breaks_purity
